@@ -77,7 +77,9 @@ def strat_route(draw, tier, holes=False):
         sinks = draw(st.lists(st.sampled_from(names), min_size=0,
                               max_size=8 if big else 6))
         nets.append({"source": src, "sinks": sinks,
-                     "weight": draw(st.sampled_from([1, 0, 2.5]))})
+                     "weight": draw(st.sampled_from([1, 0, 2.5])),
+                     # Net(source, sink): one sink given as the vertex
+                     "bare": len(sinks) == 1 and draw(st.booleans())})
     # some of the faults are only recorded on the Machine object after it
     # has been routed on once (a program that learns about a fault and
     # routes again on its machine description)
@@ -128,7 +130,8 @@ def build(case, machine_case=None):
         allocations[vobj[n]] = {} if a is None else {Cores: slice(a[0], a[1])}
     constraints = [RouteEndpointConstraint(vobj[n], Routes(r))
                    for n, r in sorted(case["endpoints"].items())]
-    nets = [Net(vobj[n["source"]], [vobj[s] for s in n["sinks"]], n["weight"])
+    from vf.gen.problems import sinks_arg
+    nets = [Net(vobj[n["source"]], sinks_arg(vobj, n), n["weight"])
             for n in case["nets"]]
     return machine, vobj, vr, nets, constraints, placements, allocations
 
